@@ -239,29 +239,29 @@ func mavenRequirementsToProject(pk maven.ProjectKey, req *pb.Requirements_Maven)
 	var profiles []maven.Profile
 	for _, p := range req.Profiles {
 		activation := maven.Activation{
-			ActiveByDefault: maven.FalsyBool(p.Activation.ActiveByDefault),
+			ActiveByDefault: maven.FalsyBool(p.GetActivation().GetActiveByDefault()),
 		}
-		if p.Activation.Jdk != nil {
-			activation.JDK = maven.String(p.Activation.Jdk.Jdk)
+		if p.GetActivation().GetJdk() != nil {
+			activation.JDK = maven.String(p.GetActivation().GetJdk().GetJdk())
 		}
-		if p.Activation.Os != nil {
+		if p.GetActivation().GetOs() != nil {
 			activation.OS = maven.ActivationOS{
-				Name:    maven.String(p.Activation.Os.Name),
-				Family:  maven.String(p.Activation.Os.Family),
-				Arch:    maven.String(p.Activation.Os.Arch),
-				Version: maven.String(p.Activation.Os.Version),
+				Name:    maven.String(p.GetActivation().GetOs().GetName()),
+				Family:  maven.String(p.GetActivation().GetOs().GetFamily()),
+				Arch:    maven.String(p.GetActivation().GetOs().GetArch()),
+				Version: maven.String(p.GetActivation().GetOs().GetVersion()),
 			}
 		}
-		if p.Activation.Property != nil {
+		if p.GetActivation().GetProperty() != nil {
 			activation.Property = maven.ActivationProperty{
-				Name:  maven.String(p.Activation.Property.Property.Name),
-				Value: maven.String(p.Activation.Property.Property.Value),
+				Name:  maven.String(p.GetActivation().GetProperty().GetProperty().GetName()),
+				Value: maven.String(p.GetActivation().GetProperty().GetProperty().GetValue()),
 			}
 		}
-		if p.Activation.File != nil {
+		if p.GetActivation().GetFile() != nil {
 			activation.File = maven.ActivationFile{
-				Missing: maven.String(p.Activation.File.Missing),
-				Exists:  maven.String(p.Activation.File.Exists),
+				Missing: maven.String(p.GetActivation().GetFile().GetMissing()),
+				Exists:  maven.String(p.GetActivation().GetFile().GetExists()),
 			}
 		}
 		profiles = append(profiles, maven.Profile{
